@@ -2,7 +2,7 @@ import BqVerif.Proofs.Sched
 import BqVerif.Proofs.Mailbox
 import BqVerif.Proofs.Worker
 import BqVerif.Model.FineWake
-import BqVerif.Proofs.TokenNet
+import BqVerif.Proofs.StartOnceNet
 import BqVerif.Model.RuntimeWitness
 /-!
 # C07 — every awaited runtime future resolves exactly once with its own result
@@ -134,6 +134,23 @@ example : (∀ t ∈ leakRun, t.wf) ∧ Tok ⟨0, 0, 0⟩ ((Net.initFlat leakTab
     first | trivial | (intro a; rfl)
 
 
+/-- **Every task body is started at most once** (flat topology, all schedules): in the event
+    log of any run of the network model - any table, any number of workers and clients, any
+    delivery order, any assignment, error and shutdown paths included - the event
+    `start a` (the body of the task with address `a` is entered) occurs at most once for every
+    address `a`.  Proof: the potential "unstarted task tokens of `a`" + "`a` not created yet"
+    never increases and every `start a` decreases it (`Proofs/StartOnce*.lean`), on top of
+    token uniqueness. -/
+theorem C07_G_start_once_partial (tbl : Table) (attached : Bool) (nw nc : Nat) (trs : List Tr)
+    (hwf : ∀ t ∈ trs, t.wf) (a : Addr) :
+    startsOf a ((Net.initFlat tbl attached nw nc).execEvs trs) ≤ 1 :=
+  starts_at_most_once tbl attached nw nc trs hwf a
+
+/-- non-vacuity: the leak run does start the root task -/
+example : startsOf ⟨-1, 0, 0⟩ ((Net.initFlat leakTable false 1 1).execEvs leakRun) = 1 := by
+  decide +kernel
+
+
 /-- **Line-level race (finding).** In the source-line model of `_process_await` ∥
     `_handle_result` the schedule in which the incoming thread handles the result of `f0`
     right after the main thread executed `box.dest_addr = task.return_address` puts the
@@ -146,5 +163,29 @@ theorem C07_fine_double_wake_witness :
     ∧ (FineWake.run {} FineWake.atomicSchedule).main = .blocked 1
     ∧ (FineWake.run {} FineWake.atomicSchedule).maxReady = 1 := by
   decide
+
+/-- **With one lock around `_process_await` and `_handle_result` the race is gone** (the
+    proposed patch): in the source-line model with a lock, for *every* schedule of the two
+    threads the assertion is never hit and the task is never in the ready queue twice.
+    (Finite reachable set, closed under both step functions, checked by `decide`.) -/
+theorem C07_fine_lock_safe (sched : List Bool) :
+    (FineWake.runL {} sched).s.main ≠ .failed ∧ (FineWake.runL {} sched).s.maxReady ≤ 1 := by
+  have hclosed : ∀ l ∈ FineWake.reach,
+      FineWake.stepMainL l ∈ FineWake.reach ∧ FineWake.stepIncL l ∈ FineWake.reach := by
+    decide +kernel
+  have hsafe : ∀ l ∈ FineWake.reach, l.s.main ≠ .failed ∧ l.s.maxReady ≤ 1 := by decide +kernel
+  have hinit : ({} : FineWake.LState) ∈ FineWake.reach := by decide +kernel
+  have hrun : ∀ (sc : List Bool) (l : FineWake.LState), l ∈ FineWake.reach →
+      FineWake.runL l sc ∈ FineWake.reach := by
+    intro sc
+    induction sc with
+    | nil => intro l hl; exact hl
+    | cons b t ih =>
+      intro l hl
+      cases b
+      · exact ih _ (hclosed l hl).2
+      · exact ih _ (hclosed l hl).1
+  exact hsafe _ (hrun sched _ hinit)
+
 
 end BqVerif.Runtime
